@@ -8,6 +8,22 @@ def rapid_stage(prop, quick, thorough, qshards=2, tshards=16, qto=300, tto=3000,
     return d
 
 CHECKS = {
+    "C02": {
+        "stages": [rapid_stage("C02", 40, 60, tto=3400)],
+        "design_ref": "DESIGN.md 4 C02",
+        "technique": "property-based testing (rapid) with per-case exhaustive single-bit-flip enumeration and substitution operators; independent crypto/hpke sealing",
+        "level_text": "For generated valid tuples: every (thorough) or 80+ sampled (quick) single-bit flips of the outer ClientHello body plus 25 substitution/truncation operators; oracle 'never accepted, fall-back byte-exact'. Exhaustive per hello in the thorough tier, sampled over hellos.",
+        "level_note": "Trusts crypto/hpke as the reference AEAD/KEM and the harness AAD construction from raw bytes; panics are left to C08.",
+        "assumptions": ["crypto/hpke implements RFC 9180", "header (record/handshake) bits are outside the AAD: tolerant class"],
+    },
+    "C04": {
+        "stages": [rapid_stage("C04", 1500, 15000)],
+        "design_ref": "DESIGN.md 4 C04",
+        "technique": "property-based testing (rapid): structured fault injection into authentic ECH hellos, alert/close oracle on a logging transport",
+        "level_text": "Randomised single- and multi-fault injection (23 fault kinds, positions drawn uniformly) into generated authentic hellos; oracle: error class, nothing forwarded, exactly one matching fatal alert then Close. Exploration, not enumeration of all positions.",
+        "level_note": "Expected alert classes are the harness's reading of draft-ietf-tls-esni 5.1/7/7.1 as listed in the property; multi-fault cases accept any injected fault's class.",
+        "assumptions": ["malformed ech_outer_extensions encodings map to decode_error", "empty reference lists and trailing bytes are not generated (unspecified)"],
+    },
     "C03": {
         "stages": [rapid_stage("C03", 1500, 20000)],
         "design_ref": "DESIGN.md 4 C03",
